@@ -4,7 +4,6 @@ package verifsim
 // (WithCodec, WithCompression) and through the verif-tagged buffer-pool hook.
 
 import (
-	"unsafe"
 	"bytes"
 	"compress/gzip"
 	"compress/zlib"
@@ -12,6 +11,7 @@ import (
 	"fmt"
 	"io"
 	"runtime/debug"
+	"unsafe"
 
 	"connectrpc.com/connect"
 	"connectrpc.com/vanguard"
